@@ -181,6 +181,17 @@ def gen_spec(rng, knobs) -> dict:
             add_edge(*e)
         hot.append([nodes[a], nodes[d]])
     spec["hot_pairs"] = hot
+    # two contexts that redefine the same unit differently: the most recent one must win, whatever
+    # order they were first seen in
+    spec["redef_clash"] = None
+    okc = [i for i, c in enumerate(contexts) if c["via"] == "file" or knobs["numtype"] == "float"]
+    if redefinable and len(okc) >= 2 and rng.random() < 0.5:
+        i, j = rng.sample(okc, 2)
+        v = rng.choice(redefinable)
+        for ci, fac in ((i, "3"), (j, "7")):
+            contexts[ci]["redefs"] = [r for r in contexts[ci]["redefs"] if r["name"] != v]
+            contexts[ci]["redefs"].append({"name": v, "factor": fac, "ref": dict(table.units[v]["ref"])})
+        spec["redef_clash"] = [i, j, v]
     # contexts whose activation must fail (invalid redefinition at position j)
     if knobs.get("badctx", True) and rng.random() < 0.7:
         for kind in rng.sample(["undef", "prefixed", "base", "dim"], rng.randint(1, 2)):
@@ -637,6 +648,33 @@ class CtxWorld:
         pg = ProgGen(streams.get("program"), spec, knobs, self.prop)
         size = kr.choice([4, 6, 8, 12, 16, 24, 30])
         program = pg.block(0, [size])
+        clash = spec.get("redef_clash")
+        if clash and kr.random() < 0.6:
+            # the same two contexts in one order and later in the other, with a probe on the contested unit
+            i, j, v = clash
+            t = pg.table
+            _, d = t.root_of_unit(v)
+            bod = t.base_unit_of_dim()
+            basemono = {bod[k]: e for k, e in d.items()}
+
+            def probe():
+                return {"id": pg.sid(), "k": "probe", "x": "2", "src": {v: 1}, "dst": basemono, "form": "to", "use_def": False}
+
+            first = [{"id": pg.sid(), "k": "with", "ctxs": [{"c": i, "via": "name"}, {"c": j, "via": "name"}], "kw": {}, "body": [probe()]}]
+            second = [{"id": pg.sid(), "k": "enable", "ctxs": [{"c": j, "via": "name"}], "kw": {}},
+                      {"id": pg.sid(), "k": "enable", "ctxs": [{"c": i, "via": "name"}], "kw": {}}, probe(),
+                      {"id": pg.sid(), "k": "disable", "n": 2}]
+            for c_idx in (i, j):
+                if spec["contexts"][c_idx]["via"] == "anon":
+                    for st in first + second:
+                        for r in st.get("ctxs", ()):
+                            if r["c"] == c_idx:
+                                r["via"] = "obj"
+            parts = [first, second]
+            kr.shuffle(parts)
+            a = kr.randint(0, len(program))
+            b = kr.randint(a, len(program))
+            program = program[:a] + parts[0] + program[a:b] + parts[1] + program[b:]
         fr = streams.get("faults")
         rates = {}
         if fr.random() < 0.7:  # swarm: a random subset of fault sites is enabled, sometimes none
